@@ -223,6 +223,15 @@ def drvChpen (tb : TermBuf.State) (caps : TermPen.Caps) (delta final : TermPen.P
   | .overflow _ => .ub "chpen: params[pindex++] written past the end of int params[N]"
   | .bytes bs => if bs.isEmpty then .ok tb else TermBuf.writeStr tb (bytesOfNats bs ++ [0]) bs.length
 
+/-- The slot tables after an operation of the lower layers: the watches go with the instance (`tickit_destroy`:
+    `destroy_watchlist`); a tick that ran polls and dispatches: the terminal's slot is the first (`xstep` has followed it,
+    last of all it does), the application's come after it. -/
+def ioAfter (top : Top) (op : XOp) (r : String) (io : IoSt) : Out IoSt :=
+  let io : IoSt := if !instAlive top then {} else io
+  match op with
+  | .itick _ => if r = "ok" then IoSt.dispatch ioFuel 0 io.poll else pure io
+  | _ => pure io
+
 /-- An operation on the I/O watches alone. -/
 def ystepIo (o : OTop) : Bool → IoSt → Out (OTop × String)
   | false, _ => pure (o, "skip")
@@ -237,12 +246,7 @@ def ystep (tc : TCfg) (o : OTop) : YOp → Out (OTop × String)
       | .newin .. => OutSt.fresh true
       | .newtop .. => OutSt.fresh false
       | _ => if op.quiet || r = "skip" then o.o else { o.o with known := false }
-    -- the watches go with the instance (tickit_destroy: destroy_watchlist); a tick that ran polls and dispatches: the
-    -- terminal's slot is the first (`xstep` has followed it, last of all it does), the application's come after it
-    let io : IoSt := if !instAlive top then {} else o.io
-    let io ← match op with
-      | .itick _ => if r = "ok" then IoSt.dispatch ioFuel 0 io.poll else pure io
-      | _ => pure io
+    let io ← ioAfter top op r o.io
     pure ({ top := top, o := out, io := io }, r)
   | .tbuf n =>
     if !outUsable o then pure (o, "skip")
@@ -271,7 +275,7 @@ def ystep (tc : TCfg) (o : OTop) : YOp → Out (OTop × String)
           rgb8 := if viaCtl then rgb8
                   else if Gen.ModeLayout.rgb8Guarded && o.o.rgb8Forced then o.o.caps.rgb8
                   else (o.o.caps.rgb8 || rgb8) }
-      pure ({ top := top, o := { o.o with caps := caps, rgb8Forced := o.o.rgb8Forced || viaCtl } },
+      pure ({ o with top := top, o := { o.o with caps := caps, rgb8Forced := o.o.rgb8Forced || viaCtl } },
         s!"ok rgb8={if caps.rgb8 then 1 else 0} colon={if caps.colon then 1 else 0}")
   | .tsetpen set pen =>
     if !outUsable o then pure (o, "skip")
